@@ -10,6 +10,7 @@ import (
 
 	"github.com/bfenetworks/bfe/bfe_balance"
 	"github.com/bfenetworks/bfe/bfe_balance/backend"
+	"github.com/bfenetworks/bfe/bfe_config/bfe_cluster_conf/cluster_conf"
 
 	"verifharness/vh"
 )
@@ -223,6 +224,11 @@ func concTable(cases []concCase) map[string]interface{} {
 						req.RetryTime = i % 4
 						bal.Balance(req)
 						bal.SetSlowStart(*defaultBackendBasic(i % 2))
+						if i%7 == 0 {
+							// server-data reloads push new gslb settings (hash strategy / header, retries, mode)
+							strategies := []int{cluster_conf.ClientIpOnly, cluster_conf.ClientIdOnly, cluster_conf.ClientIdPreferred, cluster_conf.RequestURI}
+							setBasic(bal, i%3, i%2, strategies[i%4], []string{"X-Id", "Cookie:UID", ""}[i%3], i%5 == 0, []string{"WRR", "WLC"}[i%2])
+						}
 					}
 				})
 				atomic.AddInt64(&nb, 1)
